@@ -9,8 +9,9 @@ pub const NSTATE: usize = 5;
 
 #[derive(Clone, Copy, Debug, Default, PartialEq, Eq, State)]
 pub enum St {
-    #[default]
     S0,
+    /// the enum's default is deliberately NOT its first variant
+    #[default]
     S1,
     /// a data-carrying variant (the `State` derive supports payloads that are themselves enumerable):
     /// `P(false)` and `P(true)` are two different states although they share a discriminant
@@ -70,10 +71,15 @@ impl AnimDesc {
         let vals = P::from_vals(&self.initial_values);
         let order = self.builder_order % 4 % 3;
         let replace = self.builder_order & 4 != 0;
+        // bit 3: leave `from_state` out when the initial state is the state type's Default anyway
+        let implicit_state = self.builder_order & 8 != 0 && init == St::default();
         let mut b = StateAnimatorBuilder::<St, PTimeline>::new();
         if order == 0 {
-            b = b.from_state(init).from_values(vals.clone());
-        } else if order == 2 {
+            if !implicit_state {
+                b = b.from_state(init);
+            }
+            b = b.from_values(vals.clone());
+        } else if order == 2 && !implicit_state {
             b = b.from_state(init);
         }
         for (i, s) in self.states.iter().enumerate() {
@@ -87,7 +93,10 @@ impl AnimDesc {
             }
         }
         if order == 1 {
-            b = b.from_values(vals).from_state(init);
+            b = b.from_values(vals);
+            if !implicit_state {
+                b = b.from_state(init);
+            }
         } else if order == 2 {
             b = b.from_values(vals);
         }
